@@ -32,6 +32,7 @@ use vstd::multiset::Multiset;
 use std::{cell::RefCell, collections::BinaryHeap, rc::Rc, time::{Duration, Instant}};
 #[allow(unused_imports)] use std::collections::*;   // (not in the real file: lets an edited TimerWheel mention other std collections)
 use std::cmp::Ordering;
+use std::task::Waker;
 use crate::ext_time::*;
 use crate::{EventSource, Poll, PostAction, Readiness, Token, TokenFactory};
 //@ include timer_types_body
